@@ -13,7 +13,11 @@ move.
 Part (ii), RANDOM: Hypothesis histories of 6..40 steps over several objects made by
 Register / Create / CreateKeyPair (random masks), all 7 revocation reason codes, DeriveKey with one
 or two base objects, wrapping of arbitrary targets, engine restarts, read-only "noise" requests
-(Get, GetAttributes, Locate, attempts to write the State attribute).
+(Get, GetAttributes, Locate, attempts to write the State attribute), and BATCHES: 2-4 items in one
+request mixing state changes, uses and an item that fails (stop / continue); between the items the
+states are not observable, so each object carries the set of states the reported results allow (a
+successful use pins it to Active at that point), and after the batch the observed state must be
+one of them - e.g. Active inside the batch and Pre-Active afterwards is a return to an earlier state.
 
 Oracle (written from the property statement; states are OBSERVED through GetAttributes after
 every step and cross-checked with the crypto_objects table read through stdlib sqlite3):
@@ -328,6 +332,111 @@ class World(object):
         cls = "%s@%s=%s" % (name, pre, "ok" if ok else "fail")
         return {"ok": ok, "reason": r.get("reason"), "buckets": buckets, "changed": changed,
                 "pre": pre, "cls": cls, "use_ok": bool(op in USES and ok and self._was_use(op, r))}
+
+    # --- several operations in ONE request
+    ALL_STATES = ("PRE_ACTIVE", "ACTIVE", "DEACTIVATED", "COMPROMISED", "DESTROYED",
+                  "DESTROYED_COMPROMISED", "GONE")
+
+    def batch_step(self, ops, cont=False):
+        """ops = [(op, i, aux, var) | ("Fail",)] sent as one batch.  States cannot be observed
+        between the items, so every object carries the SET of states the reported results allow:
+        a successful Activate/Revoke/Destroy adds the images under the allowed transitions, a
+        successful use needs ACTIVE to be possible at that point and pins the set to {ACTIVE};
+        after the batch the observed state of every object must be one of its possible states.
+        -> dict(buckets, classes, changed)"""
+        items, meta = [], []
+        for o in ops:
+            if o[0] == "Fail":
+                items.append({"op": "Get", "uid": "987654"})
+                meta.append(("Fail", None, [], []))
+                continue
+            op, i, aux, var = o
+            item, addressed, targets = self.item_for(op, i, aux, var)
+            items.append(item)
+            meta.append((op, i, addressed, targets))
+        spec = {"v": [1, 2], "items": items}
+        if cont:
+            spec["cont"] = "CONTINUE"
+        H.CLOCK.tick()
+        rr = self.srv.process(H.encode_request(spec), ("alice", None))
+        buckets, classes = [], []
+        if rr["resp"] is None:
+            return {"buckets": [], "classes": ["h:batch:request-error"], "changed": False}
+        results = H.response_plain(rr["resp"], (1, 2))
+        possible = [set([o["state"]]) for o in self.objs]
+        changers = [[] for _ in self.objs]
+        n_objs = len(self.objs)
+        derived = []
+        for (op, i, addressed, targets), r in zip(meta, results):
+            ok = r["status"] == "SUCCESS"
+            if op == "Fail":
+                continue
+            oc = opclass(op)
+            if op in USES and ok and self._was_use(op, r):
+                o = self.objs[i]
+                keep = o["state"]
+                o["state"] = "ACTIVE" if "ACTIVE" in possible[i] else sorted(possible[i])[0]
+                try:
+                    self._judge_use(op, i, addressed, r, buckets)
+                finally:
+                    o["state"] = keep
+                if op != "DeriveKey" and "ACTIVE" in possible[i]:
+                    possible[i] = set(["ACTIVE"])      # the use succeeded: it was Active then
+            if op == "DeriveKey" and ok and r["payload"] and r["payload"].get("uid"):
+                derived.append(r["payload"]["uid"])
+            if ok and targets:
+                if op == "Destroy" and possible[i] == set(["ACTIVE"]):
+                    buckets.append(("C04|destroy-of-active-succeeded",
+                                    "Destroy of object %s (state ACTIVE) inside a batch answered "
+                                    "SUCCESS" % self.objs[i]["uid"]))
+                # a successful request that leaves the state alone is not judged (as in the
+                # single-request steps): identity is always possible
+                possible[i] = possible[i] | set(n for old in possible[i] for n in self.ALL_STATES
+                                                if self._allowed(oc, old, n))
+                changers[i].append(oc)
+        raw = self.raw_states()
+        changed = False
+        for j in range(n_objs):
+            o = self.objs[j]
+            old = o["state"]
+            new = raw.get(o["uid"], "GONE")
+            api = self.observe(j)
+            if api != new:
+                buckets.append(("C04|api-state-differs-from-stored-state",
+                                "object %s after a batch: GetAttributes says %s, table says %s"
+                                % (o["uid"], api, new)))
+                new = api
+            if new not in possible[j]:
+                shown = [m[0] for m in meta]
+                stat = [r["status"] for r in results]
+                if changers[j] or possible[j] != set([old]):
+                    back = (RANK.get(new, 9) < min(RANK.get(x, 9) for x in possible[j]))
+                    buckets.append(("C04|batch|%s|%s|by=%s" % (
+                        "returned-to-earlier-state" if back else "illegal-transition",
+                        "%s->%s" % ("/".join(sorted(possible[j])), new),
+                        "+".join(changers[j]) or "-"),
+                        "object %s (%s) was %s; batch %s answered %s; the reported results allow "
+                        "%s afterwards, observed %s" % (o["uid"], o["otype"], old, shown, stat,
+                                                        sorted(possible[j]), new)))
+                else:
+                    buckets.append(("C04|state-changed-without-successful-state-operation|%s->%s"
+                                    % (old, new),
+                                    "object %s (%s): %s->%s after batch %s answered %s" % (
+                                        o["uid"], o["otype"], old, new, shown, stat)))
+            if new != old:
+                o["state"] = new
+                o["changes"] += 1
+                changed = True
+        for uid in derived:
+            _, b = self._add(uid, "SymmetricKey", DERIVED_MASK)
+            buckets.extend(b)
+        nfail = sum(1 for r in results if r["status"] != "SUCCESS")
+        classes.append("h:batch:items=%d:failed=%d:%s" % (len(items), nfail,
+                                                          "continue" if cont else "stop"))
+        if any(changers) and nfail:
+            classes.append("h:batch:state-change-and-failure-in-one-batch")
+        return {"buckets": buckets, "classes": classes, "changed": changed,
+                "touched": [m[1] for m in meta if m[1] is not None]}
 
     @staticmethod
     def _was_use(op, r):
@@ -645,8 +754,8 @@ def gen_history(draw):
     last = 0
     kinds = []          # object type per object index (derived keys are not tracked: indices wrap)
     for _ in range(n):
-        kind = draw(st.sampled_from(["new"] * 3 + ["op"] * 20 + ["restart"] * 2 + ["noise"] * 2)
-                    ) if nobj else "new"
+        kind = draw(st.sampled_from(["new"] * 3 + ["op"] * 20 + ["restart"] * 2 + ["noise"] * 2
+                                    + ["batch"] * 5)) if nobj else "new"
         if kind == "new":
             how = draw(st.sampled_from(["register"] * 6 + ["create", "create", "keypair"]))
             if how == "register":
@@ -666,6 +775,19 @@ def gen_history(draw):
             last = nobj - 1
         elif kind == "restart":
             steps.append({"do": "restart"})
+        elif kind == "batch":
+            # 2-4 items in one request: state changes and uses of one or two objects, often
+            # with an item that fails (an unknown identifier) before, between or after them
+            items = []
+            for _ in range(draw(st.integers(1, 3))):
+                obj = draw(st.sampled_from([last, last, draw(st.integers(0, nobj - 1))]))
+                fit = FITTING.get(kinds[obj], ["MAC", "DeriveKey"])
+                op = draw(st.sampled_from(fit + ["Activate"] * 3 + ["Revoke:CESSATION_OF_OPERATION",
+                                                                   "Revoke:KEY_COMPROMISE", "Destroy"]))
+                items.append({"op": op, "obj": obj})
+            if draw(st.integers(0, 3)) != 0:
+                items.insert(draw(st.integers(0, len(items))), {"op": "Fail"})
+            steps.append({"do": "batch", "items": items, "cont": draw(st.booleans())})
         else:
             obj = draw(st.sampled_from([last, last, last, draw(st.integers(0, nobj - 1))]))
             last = obj
@@ -711,6 +833,22 @@ def run_history(spec):
                 w.srv.restart()
                 buckets.extend(w.passive("Restart", full=True))
                 classes.add("h:restart")
+                continue
+            if do == "batch" and len(w.objs) >= 2:
+                n = len(w.objs) - 1
+                ops = []
+                for it in s["items"]:
+                    if it["op"] == "Fail":
+                        ops.append(("Fail",))
+                    else:
+                        ops.append((it["op"], 1 + it["obj"] % n, None, it.get("var", 0)))
+                pre_changes = dict((i, w.objs[i]["changes"]) for i in range(len(w.objs)))
+                res = w.batch_step(ops, bool(s.get("cont")))
+                buckets.extend(res["buckets"])
+                classes.update(res["classes"])
+                for i in res.get("touched", []):
+                    if pre_changes.get(i, 0) > 0 or w.objs[i]["changes"] > 1:
+                        w.objs[i]["nt"] = True
                 continue
             if do != "op" or len(w.objs) < 2:
                 continue
